@@ -225,6 +225,117 @@ def align_branches(ref_fn, cur_fn) -> int:
     return n
 
 
+def _ancestors_of(root: ast.AST, target: ast.AST) -> list:
+    path: list = []
+
+    def rec(n, acc):
+        if n is target:
+            path.extend(acc)
+            return True
+        for ch in ast.iter_child_nodes(n):
+            if rec(ch, acc + [n]):
+                return True
+        return False
+
+    rec(root, [])
+    return path
+
+
+def _no_effect_before(stmt: ast.stmt, use: ast.Name) -> bool:
+    """No call/await/yield is *completed* before `use` is evaluated inside stmt (so evaluating the temporary's expression at the use site
+    instead of just before the statement cannot be observed)."""
+    anc = set(map(id, _ancestors_of(stmt, use)))
+    for n in ast.walk(stmt):  # breadth-first, but we only need the set of nodes textually before `use`
+        if n is use:
+            continue
+        if isinstance(n, (ast.Call, ast.Await, ast.Yield, ast.YieldFrom, ast.NamedExpr)) and id(n) not in anc:
+            ln, co = getattr(n, "lineno", None), getattr(n, "col_offset", None)
+            if ln is None or (ln, co) < (use.lineno, use.col_offset):
+                return False
+    return True
+
+
+def inline_adjacent_temps(ref_fn, cur_fn) -> int:
+    """`v = E ; S(v)`  ->  `S(E)` where v is a local assigned once and read once, in the statement that immediately follows, no effect is
+    completed in S before the read, and the rewritten statement equals (modulo local names) a statement of the reference function while
+    `v = E` equals none.  Reference-directed like align_branches: the rewrite is behaviour-preserving by construction."""
+    import copy
+
+    locals_, fixed = _core._scope_info(cur_fn)
+    ref_locals, _ = _core._scope_info(ref_fn)
+    fixed = fixed - ref_locals
+    ref_stmts = _stmts(ref_fn)
+    by_type: dict = {}
+    for r in ref_stmts:
+        by_type.setdefault(type(r), []).append(r)
+
+    def matches(cand) -> bool:
+        return any(_core._match(r, cand, locals_, fixed, {}) for r in by_type.get(type(cand), []))
+
+    stores: dict = {}
+    loads: dict = {}
+    for n in ast.walk(cur_fn):
+        if isinstance(n, ast.Name):
+            (stores if isinstance(n.ctx, (ast.Store, ast.Del)) else loads).setdefault(n.id, []).append(n)
+    params = {a.arg for f in ast.walk(cur_fn) if isinstance(f, FuncNode + (ast.Lambda,)) for a in f.args.args + f.args.kwonlyargs + f.args.posonlyargs}
+    total = 0
+    changed = True
+    while changed:
+        changed = False
+        for node in ast.walk(cur_fn):
+            for field in ("body", "orelse", "finalbody"):
+                blk = getattr(node, field, None)
+                if not isinstance(blk, list):
+                    continue
+                for i in range(len(blk) - 1):
+                    a, st = blk[i], blk[i + 1]
+                    if not (isinstance(a, ast.Assign) and len(a.targets) == 1 and isinstance(a.targets[0], ast.Name)):
+                        continue
+                    v = a.targets[0].id
+                    if v in params or len(stores.get(v, [])) != 1 or len(loads.get(v, [])) != 1:
+                        continue
+                    use = loads[v][0]
+                    if isinstance(st, (FuncNode, ast.ClassDef, ast.For, ast.While, ast.With, ast.Try, ast.If)):
+                        # only the header expression of a compound statement is evaluated right after `a`
+                        hdr = st.test if isinstance(st, (ast.If, ast.While)) else st.iter if isinstance(st, ast.For) else None
+                        if hdr is None or not any(x is use for x in ast.walk(hdr)):
+                            continue
+                    elif not any(x is use for x in ast.walk(st)):
+                        continue
+                    if not _no_effect_before(st, use) or matches(a):
+                        continue
+                    cand = copy.deepcopy(st)
+                    # locate the copy of `use` by position
+                    tgt = next((x for x in ast.walk(cand) if isinstance(x, ast.Name) and x.id == v and isinstance(x.ctx, ast.Load)), None)
+                    if tgt is None:
+                        continue
+
+                    class Sub(ast.NodeTransformer):
+                        def visit_Name(self, n):
+                            return copy.deepcopy(a.value) if n is tgt else n
+
+                    cand = Sub().visit(cand)
+                    ast.fix_missing_locations(cand)
+                    probe = cand
+                    if isinstance(cand, (ast.If, ast.While, ast.For)):
+                        ok = matches(cand)
+                    else:
+                        ok = matches(probe)
+                    if ok:
+                        blk[i + 1] = cand
+                        del blk[i]
+                        stores.pop(v, None)
+                        loads.pop(v, None)
+                        total += 1
+                        changed = True
+                        break
+                if changed:
+                    break
+            if changed:
+                break
+    return total
+
+
 def normalise_module(rel: str, tree: ast.AST) -> int:
     """Strip no-op statements, align branch polarity with the reference spelling, and rename locals of `tree` in place back to
     reference names; returns the number of rewrites."""
@@ -237,6 +348,7 @@ def normalise_module(rel: str, tree: ast.AST) -> int:
         rf = ref_fns.get(q)
         if rf is None:
             continue
+        n += inline_adjacent_temps(rf, cur)
         n += align_branches(rf, cur)
         mp = _mapping(rf, cur)
         if not mp:
